@@ -5,12 +5,14 @@ import gen_lines
 PROPERTY = "C03"
 THEOREM_FILE = "Props/C03.v"
 INTERFACES = "L1 lex, L2 relist, L3 ast (Line::new / Line::ast / Display), L5 sessions (Runtime::enter/execute/interrupt)"
-PROFILES = ["dev"]
+PROFILES = ["dev", "dbg"]
 CASE_TIMEOUT = 0.02
 RULE = ("all strings over the 25-symbol lexical alphabet up to length 3 (quick) / 4 (thorough), seeded token soup "
         "and mutated program lines, sessions of protocol-respecting API calls; non-trivial = the line yields at least "
         "two tokens or an error; distinct = distinct case lines")
-ASSUMPTIONS = ["watchdog: a case that does not answer within 3 s is a HANG"]
+ASSUMPTIONS = ["watchdog: a case that does not answer within 3 s is a HANG",
+               "profile dbg (the crate's debug assertions on) is used only for sessions that keep the terminal's calling discipline: "
+               "a line is entered at the prompt or as the reply to INPUT / INKEY$, never while the program is running"]
 EXHAUSTIVE = {"quick": False, "thorough": False}
 
 
@@ -124,7 +126,7 @@ _gen_lines_only = gen
 
 
 def gen(tier, rng):  # noqa: F811
-    return _gen_lines_only(tier, rng) + session_cases(tier, rng)
+    return _gen_lines_only(tier, rng) + session_cases(tier, rng) + legal_session_cases(tier, rng)
 
 
 _monitor_lines = monitor
@@ -141,3 +143,40 @@ def monitor(case, r):  # noqa: F811
         if tail[-1] != "S" or ("P:" + sess.hx(" 7 ")) not in tail:
             return "not ready: after an interrupt the next line was not executed: %s ... %s" % (case.sig, sess.decode_events("|".join(tail)))
     return None
+
+
+def legal_session_cases(tier, rng):
+    """sessions as the terminal produces them, run with the crate's debug assertions enabled"""
+    out = []
+    n = 250 if tier == "quick" else 10000
+    for si in range(n):
+        calls = ["R5000"]
+        prog, inputs = gen_prog.generate(rng, size=rng.randint(1, 4))
+        for _ in range(rng.randint(3, 14)):
+            r = rng.random()
+            if r < 0.35:
+                line = rng.choice(prog)
+            elif r < 0.45:
+                line = gen_lines.numbered(rng, gen_lines.soup(rng, rng.randint(1, 8)))
+            elif r < 0.55:
+                vs = [rng.choice(["A", "S$", "T$", "I%", "P(1)", "R$(2)"]) for _ in range(rng.randint(1, 3))]
+                line = "INPUT " + ",".join(vs)
+            else:
+                line = rng.choice(DIRECT)
+            calls += [sess.E(line), "R5000"]
+            for _ in range(rng.randint(0, 2)):
+                calls.append("A5000:" + sess.hx(rng.choice(REPLIES + inputs)))
+            calls += ["I", "R5000"]          # whatever is still running or waiting is stopped before the next line
+        calls += [sess.E("PRINT 7"), "R5000"]
+        out.append(Case(sess.session(calls), sig="terminal session %d: %d calls" % (si, len(calls)), tag="terminal-session", profile="dbg",
+                        meta=("session", 0)))
+    # pools at their edge when a reply arrives (the value stack holds the reply's fields)
+    for depth in (65520, 65526, 65528, 65530, 65532):
+        for stmt, reply in (("INPUT A,B,C,D,E,F,G,H", "1,2,3,4,5,6,7,8"), ("INPUT A$", "x"), ("A$=INKEY$", "k"), ("INPUT A,B", "1")):
+            prog = ["10 N=N+1:IF N<%d THEN GOSUB 10" % depth, "20 " + stmt, "30 PRINT \"after\""]
+            calls = ["R5000"] + [sess.E(l) for l in prog] + [sess.E("RUN"), "R50000", "A5000:" + sess.hx(reply), "A5000:" + sess.hx("1,2"),
+                                                             "I", "R5000", sess.E("PRINT 7"), "R5000"]
+            for prof in ("dev", "dbg"):
+                out.append(Case(sess.session(calls), sig="reply on a nearly full stack: depth %d, %s <- %s" % (depth, stmt, reply),
+                                tag="edge-reply", profile=prof, meta=("session", 0)))
+    return out
